@@ -192,12 +192,64 @@ func config(tier string) *opspace.Config {
 	return cfg
 }
 
-func run(c *core.Ctx) { config(c.Tier).Run(c) }
+func run(c *core.Ctx) {
+	config(c.Tier).Run(c)
+	faultyConfig(c.Tier).Run(c)
+}
+
+// faultyConfig: histories that contain a failed operation (one cluster-side
+// fault), so that "previously deployed" and "last revision" differ; the
+// oracle is still applied to fault-free successful operations only.
+func faultyConfig(tier string) *opspace.Config {
+	p := chartSel{A: 1, S: 1}.spec(101)        // {a, s}
+	q := chartSel{A: 2, W: 1}.spec(102)        // {a', w}: drops s, adds w
+	r := chartSel{A: 2, AP: 1, S: 2}.spec(103) // {a' keep, s'}
+	ops := []hx.Op{{Kind: "upgrade", Chart: q}, {Kind: "upgrade", Chart: p}, {Kind: "upgrade", Chart: r}, {Kind: "rollback"}, {Kind: "uninstall"}}
+	cfg := &opspace.Config{
+		Property:  prop,
+		Drivers:   []string{"memory"},
+		Inits:     []string{"bystanders"},
+		MakeInit:  mkInit,
+		MaxDepth:  3,
+		MaxFaulty: 1,
+		Alphabet: func(_ *hx.World, hist []*rspb.Release, _ []opspace.Step) []opspace.Step {
+			var out []opspace.Step
+			if len(hist) == 0 {
+				return []opspace.Step{{Op: hx.Op{Kind: "install", Chart: p}}, {Op: hx.Op{Kind: "install", Chart: q}}}
+			}
+			for _, o := range ops {
+				out = append(out, opspace.Step{Op: o})
+			}
+			return out
+		},
+		FaultKinds: func(_ string, op hx.Op, call sim.Call) []string {
+			if op.Kind == "uninstall" {
+				return nil
+			}
+			switch call.Class {
+			case "cluster":
+				if call.Mutating {
+					return []string{"reject"}
+				}
+			case "wait":
+				return []string{"wait-fail"}
+			}
+			return nil
+		},
+		Check: check,
+	}
+	if tier == "thorough" {
+		cfg.Drivers = []string{"memory", "secrets"}
+		cfg.MaxDepth = 4
+	}
+	return cfg
+}
 
 type replayData struct {
 	opspace.Replay
-	Key  string `json:"key"`
-	Tier string `json:"tier"`
+	Key   string `json:"key"`
+	Tier  string `json:"tier"`
+	Phase string `json:"phase,omitempty"`
 }
 
 func replay(c *core.Ctx, data json.RawMessage) []core.Violation {
@@ -205,7 +257,11 @@ func replay(c *core.Ctx, data json.RawMessage) []core.Violation {
 	if err := json.Unmarshal(data, &rd); err != nil {
 		return nil
 	}
-	config(rd.Tier).ReplayPath(c, rd.Replay)
+	if rd.Phase == "faulty" {
+		faultyConfig(rd.Tier).ReplayPath(c, rd.Replay)
+	} else {
+		config(rd.Tier).ReplayPath(c, rd.Replay)
+	}
 	return core.FilterKey(c.TakeViolations(), rd.Key)
 }
 
@@ -263,7 +319,7 @@ func check(c *core.Ctx, t *opspace.Transition) {
 		_ = ek
 		key := core.SanitizeKey(fmt.Sprintf("%s|%s|%s|%s", inv, op.Kind, kindOfPath(objPath), detail))
 		c.Violate(prop, key, fmt.Sprintf("%s: %s [history=%v]", inv, what, opspace.PathStrings(t.Path)),
-			replayData{Replay: opspace.Replay{Driver: t.Driver, Init: t.Init, Path: t.Path}, Key: key, Tier: c.Tier})
+			replayData{Replay: opspace.Replay{Driver: t.Driver, Init: t.Init, Path: t.Path}, Key: key, Tier: c.Tier, Phase: phaseOf(t)})
 	}
 	if len(t.Path) >= 3 {
 		c.Sample(map[string]any{"history": opspace.PathStrings(t.Path), "cluster_after": shortPaths(t.Post)})
@@ -403,4 +459,18 @@ func shortPaths(w *hx.World) []string {
 	}
 	sort.Strings(out)
 	return out
+}
+
+// phaseOf tells which of the two searches a transition belongs to: only the
+// faulty-history search has a faulty step on its path.
+func phaseOf(t *opspace.Transition) string {
+	for _, s := range t.Path {
+		if s.Fault != nil {
+			return "faulty"
+		}
+		if s.Op.Chart != nil && s.Op.Chart.Version >= "101" && len(s.Op.Chart.Version) == 3 {
+			return "faulty"
+		}
+	}
+	return ""
 }
